@@ -153,6 +153,10 @@ def make_record(g, rng, walk, name, offsets="any", tags="safe", mapq=None, cigar
     qlen = qs + qspan + rng.choice([0, 0, rng.randint(0, 50)])
     if mapq is None:
         mapq = rng.choice([60, 60, 60, 0, 1, 17, 255])
+    if rng.random() < 0.12:
+        # read names as sequencers and pipelines write them: any printable non-blank characters, any length
+        name = rng.choice([name + "@HG002/42/ccs", "m64011_190830/" + name + "/ccs", name + "|" + "x" * rng.randint(250, 300),
+                           "#" + name, "@" + name, name + ":1=2;3,4", name + "\u00e9"])
     qname = name + (" extra=1 desc" if name_space else "")
     cols = [qname, str(qlen), str(qs), str(qs + qspan), "+", rgfa.path_str(walk), str(L), str(ps), str(pe),
             str(matches), str(block), str(mapq)]
